@@ -168,6 +168,31 @@ def obs_all(j, case):
     return [outcome(j), res, files]
 
 
+def obs_C06(j, case):
+    """what was emitted, entry by entry - not how it is spelled: per script the statements that stem from a
+    conditional entry (segment = output sections, file = input statements / pads / offsets, gp_info and symbol
+    assignments = assigned names with their wrapping, required symbols, asserts, entry), the dependency paths and
+    the declared header names"""
+    res = []
+    for label, ast, w in _asts(j):
+        items = []
+        for s_, ctx in sp.walk(ast):
+            k = s_["k"]
+            if k == "unparsed":
+                items.append(["unparsed", s_.get("text")])
+            elif k == "outsec":
+                items.append(["outsec", s_["name"]])
+            elif k == "input":
+                items.append(["input", s_["path"], s_.get("member"), s_["sect"]])
+            elif k == "assign":
+                items.append(["assign", s_["sym"], s_.get("provide"), s_.get("hidden"),
+                              s_["value"] if not (ctx and ctx[-1][0] == "outsec") else None])
+            elif k in ("extern", "assert", "entry", "dotadd"):
+                items.append([k] + [s_[x] for x in sorted(s_) if x != "k"])
+        res.append([label, items, w.get("paths"), w.get("symbols")])
+    return [outcome(j), res]
+
+
 def obs_C07(j, case):
     res = []
     for label, ast, w in _asts(j):
@@ -192,6 +217,11 @@ def obs_doc(j, case):
     return [outcome(j)[0] != "parse" and "accepted" or outcome(j), p.get("ok")]
 
 
+OVERRIDABLE = ("alloc_sections", "noload_sections", "subalign", "segment_start_align", "segment_end_align",
+               "section_start_align", "section_end_align", "sections_start_alignment", "sections_end_alignment",
+               "wildcard_sections", "fill_value", "sections_subgroups")
+
+
 def obs_C08(j, case):
     res = []
     for label, ast, w in _asts(j):
@@ -203,7 +233,13 @@ def obs_C08(j, case):
                 t.pop("member", None)
         res.append([label, items])
     p = j.get("parse", {})
-    return [outcome(j), p.get("ok"), res]
+    doc = p.get("ok")
+    if isinstance(doc, dict):
+        # the resolved settings (defaults) and, per segment, the twelve overridable options - not the files, the
+        # conditions, keep_sections, classes or top-level entries, which other properties own
+        doc = {"settings": doc.get("settings"),
+               "segments": [{k: sg.get(k) for k in ("name",) + OVERRIDABLE} for sg in doc.get("segments", [])]}
+    return [outcome(j), doc, res]
 
 
 def obs_C09(j, case):
@@ -241,7 +277,7 @@ def obs_C10(j, case):
 
 def obs_C11(j, case):
     if not case.partial:
-        return obs_placement(j, case, with_keep=True, with_pads=True)
+        return obs_placement(j, case, with_keep=False, with_pads=True)      # nothing of C11 to compare: placement only
     res = []
     for label, ast, w in _asts(j):
         if label == "main":
@@ -289,9 +325,10 @@ def obs_C14(j, case):
 def obs_C16(j, case):
     o = outcome(j)
     p = j.get("parse", {})
+    # accepted or rejected, and why: the parsed document itself belongs to the properties that read it
     if o[0] == "parse":
-        return [o, None]
-    return [("accepted", ""), p.get("ok")]
+        return [o]
+    return [("accepted", "")]
 
 
 def obs_C17(j, case):
@@ -334,11 +371,11 @@ def obs_C18(j, case):
 
 def obs_C19(j, case):
     o = outcome(j)
-    # the outcome class, with the error tag for information (crash or not is what the property is about)
-    return ["crash" if o[0] == "crash" else "no-crash", o[0], o[1].split("(")[0]]
+    # crash or not is what the property is about (which error, and whether one is due, belongs to C16/C07/...)
+    return ["crash" if o[0] == "crash" else "no-crash"]
 
 
-OBS = {"C01": obs_C01, "C02": obs_C02, "C03": obs_C03, "C04": obs_C04, "C05": obs_C05, "C06": obs_all,
+OBS = {"C01": obs_C01, "C02": obs_C02, "C03": obs_C03, "C04": obs_C04, "C05": obs_C05, "C06": obs_C06,
        "C07": obs_C07, "C08": obs_C08, "C09": obs_C09, "C10": obs_C10, "C11": obs_C11, "C12": obs_C12,
        "C13": obs_C13, "C14": obs_C14, "C15": obs_all, "C16": obs_C16, "C17": obs_C17, "C18": obs_C18,
        "C19": obs_C19, "C20": obs_all}
